@@ -309,37 +309,61 @@ func (w *world) snapshot() ([]nodeJ, string, error) {
 	return nodes, hex.EncodeToString(h.Sum(nil)), nil
 }
 
-// decompose names the content of a file as a '+'-joined list of known chunks.
+// decompose names the content of a file as a '+'-joined list of known chunks
+// (depth-first with backtracking: chunks may share prefixes).
 func (w *world) decompose(b []byte) string {
 	if len(b) == 0 {
 		return ""
 	}
+	type cand struct {
+		name string
+		data []byte
+	}
+	var cands []cand
+	for _, name := range w.reg.names() {
+		if strings.Contains(name, "+") {
+			continue
+		}
+		s := w.reg.get(name)
+		sz := s.Size()
+		if sz == 0 || sz > int64(len(b)) {
+			continue
+		}
+		buf := make([]byte, sz)
+		s.ReadAt(buf, 0)
+		cands = append(cands, cand{name, buf})
+	}
+	sort.SliceStable(cands, func(i, j int) bool { return len(cands[i].data) > len(cands[j].data) })
+	dead := map[int]bool{}
 	var parts []string
-	names := w.reg.names()
-	i := 0
-outer:
-	for i < len(b) {
-		for _, name := range names {
-			if strings.Contains(name, "+") {
-				continue
-			}
-			s := w.reg.get(name)
-			sz := s.Size()
-			if sz == 0 || sz > int64(len(b)-i) {
-				continue
-			}
-			buf := make([]byte, sz)
-			s.ReadAt(buf, 0)
-			if bytes.Equal(buf, b[i:i+int(sz)]) {
-				parts = append(parts, name)
-				i += int(sz)
-				continue outer
+	var rec func(i int) bool
+	rec = func(i int) bool {
+		if i == len(b) {
+			return true
+		}
+		if dead[i] {
+			return false
+		}
+		for _, c := range cands {
+			if len(c.data) <= len(b)-i && bytes.Equal(c.data, b[i:i+len(c.data)]) {
+				parts = append(parts, c.name)
+				if rec(i + len(c.data)) {
+					return true
+				}
+				parts = parts[:len(parts)-1]
 			}
 		}
-		sum := sha256.Sum256(b)
-		return "?" + hex.EncodeToString(sum[:6])
+		dead[i] = true
+		return false
 	}
-	return strings.Join(parts, "+")
+	if rec(0) {
+		return strings.Join(parts, "+")
+	}
+	sum := sha256.Sum256(b)
+	if os.Getenv("VERIFH_DEBUG") != "" {
+		fmt.Fprintf(os.Stderr, "decompose failed (%d bytes): % x\n", len(b), b[:min(len(b), 32)])
+	}
+	return "?" + hex.EncodeToString(sum[:6])
 }
 
 // sentinelDigest hashes everything in base except the root itself.
